@@ -135,6 +135,10 @@ def run(chk: Check):
             scn.actions = [rng.randrange(len(scn.lineup)) for _ in range(60)]
         if rng.random() < 0.4:
             scn.agent = "eps"; scn.agent_opts = (rng.choice([-1.0, 0.5]), rng.choice([0.0, 0.3, 1.0]), 0.0)
+        if i % 6 == 4:
+            # a diverging model: every loss is +inf (the bootstrap batch has no finite loss at all), or a perfect fit: every loss exactly 0.0
+            scn.loss_table = {}; scn.loss_default = [float("inf"), 0.0][(i // 6) % 2]; scn.ops = [("C", rng.randint(3, 6))]
+            chk.count("rl:all_losses_" + ("inf" if scn.loss_default else "zero"))
         scn.loss_fn = "sum" if any(isinstance(c, str) for c, *_ in scn.lineup) else None
         with warnings.catch_warnings():
             warnings.simplefilter("ignore")
